@@ -56,11 +56,22 @@ def menu(h, tier="quick"):
     for k in range(len(links)):
         out.append(["dellink", k])
     # order link between two dataflow siblings (earlier -> later)
+    from hugr import ops as _ops
+
     for c in containers:
         kids = [k for k in h.children(c) if is_df_node(h, k)]
-        for a, b in zip(kids, kids[1:]):
-            if b not in list(h.outgoing_order_links(a)):
-                out.append(["order", a.idx, b.idx])
+        if len(kids) < 3 or not isinstance(h[kids[0]].op, _ops.Input) or not isinstance(h[kids[1]].op, _ops.Output):
+            continue
+        n_added = 0
+        for x in kids[2:]:
+            # an order link into and out of every dataflow child (Call / LoadConst / containers included)
+            if x not in list(h.outgoing_order_links(kids[0])):
+                out.append(["order", kids[0].idx, x.idx])
+                n_added += 1
+            if kids[1] not in list(h.outgoing_order_links(x)):
+                out.append(["order", x.idx, kids[1].idx])
+                n_added += 1
+            if n_added >= 4:
                 break
     # index reuse: free two leaves a < b, then add a container (reuses b) with a child (reuses a)
     if len(leaves) >= 2:
